@@ -54,14 +54,16 @@ func (m *MMap) Read(b []byte, offset int64) (int, error) {
 		return 0, io.EOF
 	}
 
-	if err := m.remap(offset, len(b)); err != nil {
-		return 0, err
-	}
-
 	// 计算实际可读范围
 	readEnd := offset + int64(len(b))
 	if readEnd > m.virtualSize {
 		readEnd = m.virtualSize
+	}
+
+	// 仅要求实际可读范围已被映射
+	// 读操作允许并发执行, 文件末尾之前的数据始终处于映射区域内, 因此读操作不会修改映射状态
+	if err := m.remap(offset, int(readEnd-offset)); err != nil {
+		return 0, err
 	}
 
 	// 执行拷贝
@@ -118,8 +120,11 @@ func (m *MMap) ResetFileSize() error {
 		return err
 	}
 	// 文件已被截断至真实大小, 现有映射区域超出文件末尾的部分不可再访问
-	// 重置右边界, 使下一次读写重新扩展文件并建立映射
-	m.endOff = 0
+	// 将右边界收缩至文件末尾: 其之前的部分仍然有效, 并发的读操作无需 (也不得) 重新映射
+	// 下一次写入超出该边界时重新扩展文件并建立映射
+	if m.endOff > m.virtualSize {
+		m.endOff = m.virtualSize
+	}
 	return nil
 }
 
